@@ -131,6 +131,8 @@ enum VtState {
 }
 
 struct Faults {
+    /// the emulator answers queries with out-of-range numbers (zeros, 2^16, 2^32) or twice
+    mangle_reply: bool,
     short_write: bool,
     eagain: bool,
     short_read: bool,
@@ -249,8 +251,47 @@ impl Kernel {
         }
     }
 
-    fn reply(&mut self, bytes: Vec<u8>) {
+    fn reply(&mut self, mut bytes: Vec<u8>) {
         let latency = self.reply_latency;
+        if self.faults.mangle_reply && self.src.chance(1, 6) {
+            // a buggy or hostile emulator: same shape, numbers out of range, or the answer twice
+            // (never bytes of the typed alphabet, never an unterminated sequence: what the user
+            // types stays attributable)
+            self.src.fault("emulator-reply-mangled");
+            let mode = self.src.draw(4);
+            if mode == 3 {
+                let copy = bytes.clone();
+                bytes.extend(copy);
+            } else {
+                let big: &[u8] = match mode {
+                    0 => b"0",
+                    1 => b"65536",
+                    _ => b"4294967296",
+                };
+                let which = self.src.draw(4) as usize; // which run of digits (3 = all of them)
+                let mut out = Vec::new();
+                let mut run = 0usize;
+                let mut i = 0;
+                while i < bytes.len() {
+                    if bytes[i].is_ascii_digit() {
+                        let start = i;
+                        while i < bytes.len() && bytes[i].is_ascii_digit() {
+                            i += 1;
+                        }
+                        if which == 3 || which == run {
+                            out.extend_from_slice(big);
+                        } else {
+                            out.extend_from_slice(&bytes[start..i]);
+                        }
+                        run += 1;
+                    } else {
+                        out.push(bytes[i]);
+                        i += 1;
+                    }
+                }
+                bytes = out;
+            }
+        }
         self.schedule(latency, Ev::Input(bytes, "emu-reply"));
     }
 
@@ -821,6 +862,7 @@ fn new_kernel(mut src: Src) -> Kernel {
     };
     let faults_on = src.chance(3, 4);
     let faults = Faults {
+        mangle_reply: faults_on && src.chance(1, 4),
         short_write: faults_on && src.chance(1, 2),
         eagain: faults_on && src.chance(1, 3),
         short_read: faults_on && src.chance(1, 2),
